@@ -136,6 +136,31 @@ func waitUntil(cond func() bool, wd time.Duration) bool {
 	}
 }
 
+// drain makes sure that every Update that turned a harness Update away has its fill in the log: a
+// direct Update of g is repeated until it is admitted (a fill of this goroutine appears), which can
+// only happen once no other Update of g is in flight. Without it a loop goroutine that has taken the
+// in-flight slot but not yet reached the fill function would be missing from the history.
+func (c *fcRun) drain(gs []string) bool {
+	for _, g := range gs {
+		ok := waitUntil(func() bool {
+			o := c.update(g)
+			c.d.mu.Lock()
+			defer c.d.mu.Unlock()
+			for k := len(c.d.lists) - 1; k >= 0; k-- {
+				l := c.d.lists[k]
+				if l.Gid == o.Gid && l.Group == g {
+					return l.Enter > o.Call
+				}
+			}
+			return false
+		}, watchdog)
+		if !ok {
+			return false
+		}
+	}
+	return true
+}
+
 // --- sequential model used by porcupine (per group) ---------------------------------------------
 
 const (
@@ -1046,6 +1071,9 @@ func runFillConc(rep *vh.Report, env vh.Env, i int) {
 		}
 	}
 	if !waitUntil(func() bool { return d.nInflight() == 0 }, watchdog) {
+		stuck = true
+	}
+	if !stuck && !run.drain(gs) {
 		stuck = true
 	}
 	if stuck {
